@@ -52,6 +52,7 @@ def extractCore (T : Tables) (sp : Nat → Bool) (fam : List (Nat × RE)) (src :
 
 /-! ### `BaseNumbers.*RegexDefinition` and `_generate_format_regex` as AST builders -/
 
+-- no correspondence: integerRegexDefinition doubleRegexDefinition generateFormatRegex numbersWithPlaceHolderOf doubleDecimalPointOf and their parts (dig … decPhOf): regex constructors; theorems gen_integer_definitions / gen_double_definitions / generate_format_regex_cases (Props/C03Extract) and the shape checks of Props/C03ExtractPlain (`decide`, re-checked every run) equate their output with the regex ASTs regenerated from the working tree (RTV/Gen/NumRegex), which the driver runs (nx.find / nx.extract)
 /-- `\d` -/
 def dig : RE := .cls [.digit] false
 /-- a literal character (no case variants: marks and signs) -/
